@@ -779,7 +779,14 @@ pub fn run(args: &Args) -> Report {
         let shards: u64 = args.get("shards").and_then(|s| s.parse().ok()).unwrap_or(1);
         crate::worker::install_panic_hook();
         let n = 1200u64;
+        // interpretation speed varies by three orders of magnitude between cases: stop starting new
+        // cases after a wall-clock budget (what was run is reported; the budget decides nothing else)
+        let started = std::time::Instant::now();
         for k in 0..n {
+            if started.elapsed().as_secs() > 420 {
+                rep.count_n("miri_cases_not_started_within_budget", n - k);
+                break;
+            }
             let idx = CORPUS + k * shards + shard;
             let d = (idx % DECODERS.len() as u64) as usize;
             if matches!(d, 13 | 14 | 23) {
